@@ -346,8 +346,9 @@ def add_dangling(rng, block):
     if span == 2 and rng.random() < 0.8:
         extra.append(["angles", [n - 1, n, 2 * n], ["1", str(rng.randint(90, 180)), str(rng.randint(10, 90))], {}])
         if rng.random() < 0.5:
-            # (every dangling interaction keeps an atom of its own residue: that is what "dangling" means)
-            extra.append(["constraints", [n - 1, 2 * n], ["1", "0.%d" % rng.randint(10, 60)], {}])
+            # (every dangling interaction keeps an atom of its own residue, and consecutive atoms lie in the same
+            # or in consecutive residues: the residue pattern of the resulting link is then a path)
+            extra.append(["dihedrals", [n - 1, n, 2 * n - 1, 2 * n], ["1", str(rng.randint(0, 180)), str(rng.randint(1, 9)), "3"], {}])
     if rng.random() < 0.4 and n >= 2:
         atoms = [n - 2, n - 1, n, n + 1] if n >= 2 else None
         if atoms and max(atoms) < 2 * n:
@@ -465,7 +466,9 @@ def gen_link_from_graph(rng, case, perturb=0.35):
                 attrs["replace"] = {"tag": rng.choice(["r1", "r2"])}
             atoms.append([key, attrs])
             per_res[c].append(key)
-    if not any("resname" in a[1] for a in atoms):
+    if not any("resname" in a[1] for a in atoms) and not case.get("allow_no_resname"):
+        # (a link none of whose atoms names a residue is never considered by the code: withheld shape
+        # `link-without-resname-skipped`, see notes/C02_findings.md)
         atoms[0][1]["resname"] = info[chosen[0]][1]
     # interactions: bonds along the chosen tree edges, an angle, sometimes pairs / exclusions
     ixns = []
@@ -553,10 +556,18 @@ def gen_link_from_graph(rng, case, perturb=0.35):
                     for pat in link["patterns"]:
                         for item in pat:
                             item[0] = ren.get(item[0], item[0])
+    # an extra link atom that schedules a block atom for removal (`replace: {atomname: null}`)
+    if rng.random() < 0.1:
+        c = rng.choice(chosen)
+        block = blocks[info[c][1]]
+        free = [a for a in block["atoms"] if prefixes[c] + a["name"] not in [k for k, _ in atoms]]
+        if free:
+            atom = rng.choice(free)
+            atoms.append([prefixes[c] + atom["name"], {"resname": info[c][1], "replace": {"atomname": None}}])
     return link
 
 
-def gen_case(rng, syntax=None, max_res=7, removal=True):
+def gen_case(rng, syntax=None, max_res=7, removal=True, allow_no_resname=False):
     """one random C02 case"""
     syntax = syntax or rng.choice(["ff", "ff", "itp", "mixed"])
     nblocks = rng.choice([1, 2, 2, 3])
@@ -574,6 +585,8 @@ def gen_case(rng, syntax=None, max_res=7, removal=True):
     nres = rng.randint(1, max_res) if rng.random() < 0.1 else rng.randint(2, max_res)
     graph = gen_graph(rng, nres, [b["name"] for b in blocks], start=rng.choice([1, 1, 1, 3]))
     case = dict(blocks=blocks, links=[], graph=graph)
+    if allow_no_resname:
+        case["allow_no_resname"] = True
     nlinks = rng.choice([0, 1, 2, 2, 3, 4]) if syntax != "itp" else rng.choice([0, 0, 1, 2])
     for _ in range(nlinks):
         link = gen_link_from_graph(rng, case)
